@@ -400,7 +400,9 @@ Nested(ps) == [NewPS EXCEPT !.bs = ps.bs, !.rt = ps.rt, !.calls = ps.calls,
                             !.ov = IF NestedOverride = "inherited" THEN ps.ov ELSE "none"]
 Return(ps, r) ==
   LET m == ps.bs.mode IN
-  IF Exc(r) THEN SetMode([ps EXCEPT !.exc = r.exc, !.rt = r.rt, !.calls = r.calls], m)   \* p.buf is not taken back
+  \* (the buffer is handed back also when a panic crosses the nested printer -- F10: before the repair it was not, and
+  \*  the outer printer was left with a stale view of bytes the nested one had rewritten)
+  IF Exc(r) THEN SetMode([ps EXCEPT !.bs = r.bs, !.exc = r.exc, !.rt = r.rt, !.calls = r.calls], m)
   ELSE SetMode([ps EXCEPT !.bs = r.bs, !.rt = r.rt, !.calls = r.calls], m)
 PPPrint(ps, ts)     == IF Exc(ps) THEN ps ELSE Return(ps, DoPrint(Nested(ps), ts))
 PPPrintf(ps, f, ts) == IF Exc(ps) THEN ps ELSE Return(ps, DoPrintf(Nested(ps), f, ts))
